@@ -13,13 +13,13 @@ From Mos Require Import Base.Prelude Net.Exchange Net.ExchangeProofs.
    (c) so the exchange makes at most own_bound tk = 5*(retry_limit+1) own steps in total (30 pipeline/QUIC, 35 reuse,
        5 DoH), at most ctx_bound = 5 after ctx is done, and mu = 0 only when it has returned. *)
 Theorem C14_ctx_exit : forall tk ls s,
-  exec tk ls init = Some s ->
+  xexec tk ls xinit = Some s ->
   (ctxd s = true -> returned s = false ->
-     (exists a s', is_own a = true /\ step tk s a = Some s') /\
-     ((exists d, pcv s = PDialWait d) \/ (exists f r, pcv s = PWait f r) -> exists s', step tk s AArmCtx = Some s')) /\
-  (forall l s', step tk s l = Some s' -> if is_own l then mu tk s' < mu tk s else mu tk s' <= mu tk s) /\
+     (exists a s', is_own a = true /\ xstep tk s a = Some s') /\
+     ((exists d, pcv s = PDialWait d) \/ (exists f r, pcv s = PWait f r) -> exists s', xstep tk s AArmCtx = Some s')) /\
+  (forall l s', xstep tk s l = Some s' -> if is_own l then mu tk s' < mu tk s else mu tk s' <= mu tk s) /\
   count_own ls + mu tk s <= own_bound tk /\
-  (ctxd s = true -> forall ls' s', exec tk ls' s = Some s' -> count_own ls' <= ctx_bound) /\
+  (ctxd s = true -> forall ls' s', xexec tk ls' s = Some s' -> count_own ls' <= ctx_bound) /\
   (mu tk s = 0 -> returned s = true).
 Proof. exact ctx_exit. Qed.
 Print Assumptions C14_ctx_exit.
@@ -28,7 +28,7 @@ Print Assumptions C14_ctx_exit.
 Theorem C14_only_waits_block : forall tk s,
   returned s = false ->
   (forall d, pcv s <> PDialWait d) -> (forall f r, pcv s <> PWait f r) ->
-  exists a s', is_own a = true /\ step tk s a = Some s'.
+  exists a s', is_own a = true /\ xstep tk s a = Some s'.
 Proof. exact nonblocking_pc_progress. Qed.
 Print Assumptions C14_only_waits_block.
 
@@ -44,7 +44,7 @@ Print Assumptions C14_retry_bound.
 (* the only step that changes the retry counter is the check after a failure on a REUSED connection with ctx live and
    the counter below the limit; it increments by one and goes back to the top of the loop *)
 Theorem C14_retry_only_reused : forall tk s l s',
-  step tk s l = Some s' -> retry s' <> retry s ->
+  xstep tk s l = Some s' -> retry s' <> retry s ->
   l = ACheck /\ pcv s = PCheck false /\ ctxd s = false /\ retry s < retry_limit tk /\
   retry s' = S (retry s) /\ pcv s' = PGet.
 Proof. exact retry_only_by_check. Qed.
@@ -52,7 +52,7 @@ Print Assumptions C14_retry_only_reused.
 
 (* and the loop re-enters its top in no other way *)
 Theorem C14_loop_only_by_retry : forall tk s l s',
-  step tk s l = Some s' -> pcv s' = PGet -> pcv s <> PGet ->
+  xstep tk s l = Some s' -> pcv s' = PGet -> pcv s <> PGet ->
   l = ACheck /\ pcv s = PCheck false /\ ctxd s = false /\ retry s < retry_limit tk /\ retry s' = S (retry s).
 Proof. exact back_to_get_only_by_retry. Qed.
 Print Assumptions C14_loop_only_by_retry.
@@ -60,21 +60,21 @@ Print Assumptions C14_loop_only_by_retry.
 (* a failure on a freshly dialled connection returns the error: no retry, no further dial *)
 Theorem C14_fresh_failure_returns : forall tk s,
   pcv s = PCheck true ->
-  exists s', step tk s ACheck = Some s' /\ pcv s' = PRet RErr /\ retry s' = retry s /\ dials s' = dials s.
+  exists s', xstep tk s ACheck = Some s' /\ pcv s' = PRet RErr /\ retry s' = retry s /\ dials s' = dials s.
 Proof. exact fresh_failure_returns. Qed.
 Print Assumptions C14_fresh_failure_returns.
 
 Theorem C14_ctx_done_failure_returns : forall tk s f,
   pcv s = PCheck f -> ctxd s = true ->
-  exists s', step tk s ACheck = Some s' /\ pcv s' = PRet RErr /\ retry s' = retry s.
+  exists s', xstep tk s ACheck = Some s' /\ pcv s' = PRet RErr /\ retry s' = retry s.
 Proof. exact ctx_done_failure_returns. Qed.
 Print Assumptions C14_ctx_done_failure_returns.
 
 (* the boundary both ways, for every transport *)
 Theorem C14_retry_boundary : forall tk s,
   pcv s = PCheck false -> ctxd s = false ->
-  (retry s < retry_limit tk -> exists s', step tk s ACheck = Some s' /\ pcv s' = PGet /\ retry s' = S (retry s)) /\
-  (retry_limit tk <= retry s -> exists s', step tk s ACheck = Some s' /\ pcv s' = PRet RErr).
+  (retry s < retry_limit tk -> exists s', xstep tk s ACheck = Some s' /\ pcv s' = PGet /\ retry s' = S (retry s)) /\
+  (retry_limit tk <= retry s -> exists s', xstep tk s ACheck = Some s' /\ pcv s' = PRet RErr).
 Proof. exact retry_boundary. Qed.
 Print Assumptions C14_retry_boundary.
 
@@ -82,18 +82,18 @@ Print Assumptions C14_retry_boundary.
 (* pipelined connections: closeWithErr (one cancellation of the connection context = the label EKill in every waiter)
    enables, in EVERY exchange waiting on that connection, the connection arm, which leaves the wait with an error
    whether or not a reply is queued *)
-Theorem C14_conn_death : forall ws : list state,
+Theorem C14_conn_death : forall ws : list xstate,
   Forall waiting ws ->
-  Forall (fun w => exists w1 w2 f, step TPipe w EKill = Some w1 /\ cdead w1 = true /\
-                                   step TPipe w1 AArmConn = Some w2 /\ pcv w2 = PCheck f) ws.
+  Forall (fun w => exists w1 w2 f, xstep TPipe w EKill = Some w1 /\ cdead w1 = true /\
+                                   xstep TPipe w1 AArmConn = Some w2 /\ pcv w2 = PCheck f) ws.
 Proof. exact pipe_kill_wakes_all. Qed.
 Print Assumptions C14_conn_death.
 
 (* and no sequence of environment steps can disable that arm again *)
 Theorem C14_conn_death_stable : forall ls s,
   waiting s -> cdead s = true -> count_own ls = 0 ->
-  forall s', exec TPipe ls s = Some s' ->
-  waiting s' /\ cdead s' = true /\ exists s2 f, step TPipe s' AArmConn = Some s2 /\ pcv s2 = PCheck f.
+  forall s', xexec TPipe ls s = Some s' ->
+  waiting s' /\ cdead s' = true /\ exists s2 f, xstep TPipe s' AArmConn = Some s2 /\ pcv s2 = PCheck f.
 Proof. exact pipe_dead_arm_stable. Qed.
 Print Assumptions C14_conn_death_stable.
 
@@ -101,11 +101,11 @@ Print Assumptions C14_conn_death_stable.
    worker's failing I/O — a step that needs no reply — posts the error, and the result arm then leaves the wait *)
 Theorem C14_conn_death_worker : forall tk s f r,
   conn_arm tk = false -> pcv s = PWait f r ->
-  exists s1, step tk s EKill = Some s1 /\ pcv s1 = PWait f r /\
+  exists s1, xstep tk s EKill = Some s1 /\ pcv s1 = PWait f r /\
     match r with
-    | Some _ => exists s2, step tk s1 AArmRes = Some s2 /\
+    | Some _ => exists s2, xstep tk s1 AArmRes = Some s2 /\
                            returned s2 || match pcv s2 with PCheck _ => true | _ => false end = true
-    | None => exists s2 s3, step tk s1 (EDeliver false) = Some s2 /\ step tk s2 AArmRes = Some s3 /\
+    | None => exists s2 s3, xstep tk s1 (EDeliver false) = Some s2 /\ xstep tk s2 AArmRes = Some s3 /\
                             match pcv s3 with PCheck _ | PRet RErr => True | _ => False end
     end.
 Proof. exact worker_kill_wakes. Qed.
@@ -127,7 +127,7 @@ Print Assumptions C14_stale_success.
 (* a healthy connection is not blocked: the reply can be queued and taken *)
 Theorem C14_healthy_delivers : forall tk s f,
   pcv s = PWait f None ->
-  exists s1 s2, step tk s (EDeliver true) = Some s1 /\ step tk s1 AArmRes = Some s2 /\ pcv s2 = PRet RReply.
+  exists s1 s2, xstep tk s (EDeliver true) = Some s1 /\ xstep tk s1 AArmRes = Some s2 /\ pcv s2 = PRet RReply.
 Proof. exact healthy_wait_delivers. Qed.
 Print Assumptions C14_healthy_delivers.
 
@@ -172,11 +172,81 @@ Print Assumptions C14_budget_exhausted_pipe_quic.
 (* the scripted runner the harness is compared with only produces executions of the LTS, within the bounds *)
 Theorem C14_script_sound : forall tk pool dialf o,
   run_script tk pool dialf = Some o ->
-  (exists ls s, exec tk ls init = Some s /\ pcv s = PRet (o_class o) /\
+  (exists ls s, xexec tk ls xinit = Some s /\ pcv s = PRet (o_class o) /\
                 dials s = o_dials o /\ attempts s = o_attempts o /\ ctxd s = o_ctx o) /\
   o_attempts o <= retry_limit tk + 1 /\ o_dials o <= 1.
 Proof. exact run_script_sound_bounds. Qed.
 Print Assumptions C14_script_sound.
+
+(* ---- a pooled pipelined connection that goes SILENT (no FIN, no RST) ----
+   Model: [ix_step wr idle] — one pooled pipelined connection with the clock of its read loop ([ix_since] = time since
+   the read deadline was last armed, i.e. since the last message was READ), shared by any number of exchange goroutines
+   (instances of the exchange LTS on TPipe) that join, write, wait, time out and retry in any interleaving.
+   The code is [wr = false]: pipelineConn.write touches no deadline. *)
+
+(* nothing but a read from the connection lowers the time since the deadline was armed: no write, no join, no step of
+   any exchange; time steps raise it *)
+Theorem C14_idle_deadline_only_reads_rearm : forall idle s l s',
+  ix_step false idle s l = Some s' -> ix_is_read s l = false ->
+  ix_since (ix_conn s) + (match l with IxTick => 1 | _ => 0 end) <= ix_since (ix_conn s').
+Proof. exact ix_since_monotone. Qed.
+Print Assumptions C14_idle_deadline_only_reads_rearm.
+
+(* so after an idle time-out of silence the idle deadline step is enabled WHATEVER the exchanges did meanwhile (it is
+   never disabled by exchange activity) *)
+Theorem C14_idle_deadline_enabled : forall idle ls s s',
+  ix_exec false idle ls s = Some s' -> ix_silent false idle ls s = true ->
+  idle <= ix_since (ix_conn s) + ix_ticks ls ->
+  ix_dead (ix_conn s') = false ->
+  exists s'', ix_step false idle s' IxIdleFire = Some s''.
+Proof. exact ix_fire_enabled_after_silence. Qed.
+Print Assumptions C14_idle_deadline_enabled.
+
+(* and when it fires, the connection is dead for good and EVERY exchange waiting on it with a live context and retry
+   budget left reaches the reply — connection arm, retry (reused connection, ctx live), ONE fresh dial to the healthy
+   server, write, reply — by steps that no other exchange can disturb and that disturb no other exchange *)
+Theorem C14_silent_pooled_conn_recovered : forall idle ls s0 s,
+  ix_exec false idle ls s0 = Some s -> ix_silent false idle ls s0 = true ->
+  idle <= ix_since (ix_conn s0) + ix_ticks ls ->
+  ix_dead (ix_conn s) = false ->
+  exists sf, ix_step false idle s IxIdleFire = Some sf /\ ix_dead (ix_conn sf) = true /\
+    forall i w r, nth_error (ix_ws s) i = Some w ->
+      pcv w = PWait false r -> ctxd w = false -> retry w < retry_limit TPipe ->
+      exists s2 w2, ix_exec false idle (map (IxW i) ix_recovery) sf = Some s2 /\
+                    nth_error (ix_ws s2) i = Some w2 /\ pcv w2 = PRet RReply /\
+                    dials w2 = S (dials w) /\ retry w2 = S (retry w) /\
+                    (forall j, j <> i -> nth_error (ix_ws s2) j = nth_error (ix_ws sf) j).
+Proof. exact ix_silent_pooled_conn_recovered. Qed.
+Print Assumptions C14_silent_pooled_conn_recovered.
+
+Theorem C14_conn_stays_dead : forall wr idle s l s',
+  ix_step wr idle s l = Some s' -> ix_dead (ix_conn s) = true -> ix_dead (ix_conn s') = true.
+Proof. exact ix_dead_monotone. Qed.
+Print Assumptions C14_conn_stays_dead.
+
+(* sensitivity (the regression this guards against: SetDeadline instead of SetWriteDeadline in pipelineConn.write):
+   if a write re-armed the read deadline, 10 exchanges arriving one time unit apart (idle = 3) keep a silent connection
+   alive — all 10 are still on it, the deadline step is disabled — while under the code it is enabled *)
+Theorem C14_write_rearm_would_starve :
+  let ls := ix_busy_rounds 10 0 in
+  ix_ticks ls = 10 /\
+  ix_silent true 3 ls ix_init = true /\ ix_silent false 3 ls ix_init = true /\
+  (exists s, ix_exec true 3 ls ix_init = Some s /\ ix_dead (ix_conn s) = false /\ ix_fire_enabled 3 s = false /\
+             length (ix_ws s) = 10 /\ forallb ix_on_conn (ix_ws s) = true) /\
+  (exists s, ix_exec false 3 ls ix_init = Some s /\ ix_dead (ix_conn s) = false /\ ix_fire_enabled 3 s = true).
+Proof. exact ix_write_rearm_starves. Qed.
+Print Assumptions C14_write_rearm_would_starve.
+
+(* the scripted form the harness replays (exchange deadline beyond the idle time-out): reply after one dial and two
+   attempts; with the deadline before the idle time-out the exchange ends at its deadline; a silent FRESH connection
+   dies at the idle time-out and its error is returned *)
+Theorem C14_silent_pooled_script : forall udp,
+  run_case_idle TPipe udp true [SSilent] [SOk] = Some (mkOut RReply 1 2 false) /\
+  run_case_idle TPipe udp true [SHalf] [SOk] = Some (mkOut RReply 1 2 false) /\
+  run_case_idle TPipe udp false [SSilent] [SOk] = Some (mkOut RErr 0 1 true) /\
+  run_case_idle TPipe udp true [] [SSilent] = Some (mkOut RErr 1 1 false).
+Proof. exact script_silent_pooled_recovered. Qed.
+Print Assumptions C14_silent_pooled_script.
 
 (* ---- non-vacuity ---- *)
 (* boundary of the retry constants: 5 stale -> reply / 6 stale -> error on the pipelined transport; on reuse 6 retries, then the 7th attempt always dials *)
@@ -204,8 +274,20 @@ Proof. vm_compute. repeat split. Qed.
 
 (* a reachable blocked state with ctx done exists (so C14_ctx_exit (a) is not vacuous), and its ctx arm leaves it *)
 Example C14_example_ctx_arm :
-  exists s s', exec TReuse [AGet true; AWrite true; ECtx] init = Some s /\
+  exists s s', xexec TReuse [AGet true; AWrite true; ECtx] xinit = Some s /\
                pcv s = PWait false None /\ ctxd s = true /\ returned s = false /\
-               step TReuse s AArmCtx = Some s' /\ pcv s' = PCheck false /\
-               step TReuse s AArmRes = None.
+               xstep TReuse s AArmCtx = Some s' /\ pcv s' = PCheck false /\
+               xstep TReuse s AArmRes = None.
 Proof. eexists; eexists. vm_compute. repeat split. Qed.
+
+(* the hypotheses of C14_silent_pooled_conn_recovered are met by a concrete execution: one exchange waits on the pooled
+   connection, two more join and WRITE while time passes (idle = 3); the deadline fires and the first waiter recovers *)
+Example C14_example_silent_pooled :
+  let ls := [IxJoin; IxW 0 (AGet true); IxW 0 (AWrite true); IxTick;
+             IxJoin; IxW 1 (AGet true); IxW 1 (AWrite true); IxTick;
+             IxJoin; IxW 2 (AGet true); IxW 2 (AWrite true); IxTick] in
+  ix_silent false 3 ls ix_init = true /\ ix_ticks ls = 3 /\
+  exists s s2 w2, ix_exec false 3 (ls ++ [IxIdleFire] ++ map (IxW 0) ix_recovery) ix_init = Some s2 /\
+                  ix_exec false 3 ls ix_init = Some s /\ ix_dead (ix_conn s) = false /\
+                  nth_error (ix_ws s2) 0 = Some w2 /\ pcv w2 = PRet RReply /\ dials w2 = 1 /\ retry w2 = 1.
+Proof. cbv zeta. split; [vm_compute; reflexivity|]. split; [reflexivity|]. eexists; eexists; eexists. vm_compute. repeat split. Qed.
